@@ -39,7 +39,10 @@ RULE = ("documented box: spot in {1,50,100}, r in {0,.02,.05}, d in {0,.01}, T i
         "M <= 2.5 => the pricer must raise; resolved regime (M >= 5 and |psi(eta)|/|psi(0)| >= 0.95) => hard, otherwise recorded finding F-C18-4; "
         f"tolerances: prices {TOL}*spot, digital/density/cdf {TOL} (cdf vs Simpson-integrated density 5e-4; density on 1001 uniform log-points "
         "over the truncation range), parity 1e-12*max(S,K). non-trivial = model case (all predicates evaluated on its ladders) or an Interval "
-        "case lemma with k >= 1")
+        "case lemma with k >= 1; closed form around its threshold: sigma in {0, .5e-8, .99e-8, prev(1e-8), 1e-8, next(1e-8), 1.5e-8, 2e-8, 1e-7}, "
+        "T = 1e-9, spot = 1e-9, K/S in {.8, 1, 1.25}; FFT scale cases: Black-Scholes spot in {100, 1e3, 5e3, 9e3, 1e4, 2e4, 1e6} against the same law at "
+        "spot 1 (decision must agree: recorded finding F-C18-7; prices homogeneous to 1e-6); VG nu in [-2, -0.03] and 0 must be refused "
+        "(recorded finding F-C18-6), nu > 0 controls")
 MODELLED = ["numpy elementwise semantics of COSPricer.xi/psi/u_put (translated pointwise by py2coq); np.divide(..., where=mask) leaves "
             "the masked cells uninitialised: modelled by an arbitrary real `uninit` (the theorems show the result never depends on it)",
             "scipy.stats.norm.cdf: abstract Phi (symmetric, [0,1]-valued, monotone) in the theorems; the Gaussian integral PhiR in the "
@@ -64,18 +67,34 @@ MODELLED = ["numpy elementwise semantics of COSPricer.xi/psi/u_put (translated p
             "imaginary axis x = -iu by textual substitution 1j*x -> u; their composition exp_mgf is hand-written",
             "FFTPricer._call_prices (FFT, interpolation), the characteristic functions and cumulants: NOT modelled -- covered by the "
             "differential tests only",
-            "FFTPricer._sufficient_condition: NOT modelled in Coq; every branch is driven through the public FFTPricer.call with an oracle "
-            "independent of the pricer: infinite E[S^2.5] (tail rate <= 2.5: _fft_guard_cases), `moments[-1] > 1e10` on both sides of the threshold "
-            "against the closed-form Black-Scholes moment S^2.5 exp(2.5(r-d)T + 1.875 sigma^2 T) incl. spots up to 2e4 (the threshold is absolute "
-            "in currency units: every model with spot >= 1e4 and r >= d is refused), and `except ZeroDivisionError` with HEM eta1 exactly on the "
-            "guard's grid {0, .25, ..., 2.5} (_fft_branch_cases); prices returned below the threshold are compared with CFBlackScholes",
+            "FFTPricer._sufficient_condition: NOT modelled in Coq and nothing of it is generated; its branches are driven through the public "
+            "FFTPricer.call by implementation-only cases: infinite E[S^2.5] (tail rate <= 2.5: _fft_guard_cases, oracle = the tail rate of the "
+            "Levy measure), `except ZeroDivisionError` with HEM eta1 exactly on the guard's grid {0, .25, ..., 2.5} (that the characteristic "
+            "function raises there is REQUIRED since wave 8b), and `moments[-1] > 1e10` with a SCALE-FREE oracle since wave 8b (audit5b A5/D7: "
+            "the old oracle copied the code's 1e10): the same Black-Scholes law at `spot` and at spot 1 must get the same decision and "
+            "homogeneous prices, box models must be quoted at unit spot, returned prices are compared with CFBlackScholes.  The absolute "
+            "threshold (currency units: every spot >= 1e4 refused) is finding F-C18-7 (known), not expected behaviour",
+            "VGParameters: vgR_c / vgR_lambda_p / vgR_lambda_m generated from __init__; the class guards sigma only (descriptor `positive`, not "
+            "generated); nu < 0 is accepted by the code and by the generated constructor alike: finding F-C18-6 (C18_vg_nu_unguarded_refuted on "
+            "the generated term; the out-of-bounds COS quotes are observed on the implementation only, _vg_nu_cases)",
             "the wave-6 closed-form theorems are also evaluated on the implementation (CFBlackScholes, scipy norm.cdf, floats): central strike "
             "difference of call = -digital (1e-6), call/put not decreasing when sigma crosses the 1e-8 threshold (_bs_shape_checks)",
+            "CFBlackScholes._call_put BOTH branches are tied by Coq cases since wave 8b (audit5b A5): case_b* regular branch (sigma in [.1,.4]), "
+            "case_bd* degenerate branch (sigma = 0 / .99e-8 / the float below 1e-8, T = 1e-9, spot = 1e-9; `degen` proves the GENERATED "
+            "disjunction true), case_ba* regular side AT the threshold (sigma = 1e-8, next float, 2e-8; PhiR enclosed by C18_PhiR_enclosure, at "
+            "the money by the integral tactic).  The generated test compares with the RATIONAL 1/10^8, the code with the float 1e-8 (2.1e-25 "
+            "larger): no float lies between them, so the two tests agree on every float sigma (the cases include both neighbours)",
             "VG = CGMY(Y=0) is proved for real arguments inside the strip of analyticity; the complex extension used by the "
             "characteristic function is covered by the differential test VG vs CGMY"]
 ASSUMPTIONS = ["the differential tests hold on the documented box and regime only; they are tests, not proofs",
                "truncation error of COS (range l=10, n=10000 terms) and quadrature/interpolation error of FFT (N=2^18, eta=0.25, "
-               "alpha=1.5) are NOT bounded by any theorem"]
+               "alpha=1.5) are NOT bounded by any theorem",
+               "every closed-form theorem needs 0 < K, and the model is wrong without it: Coq's ln 0 = 0 gives bs_call PhiR 0 0 1 1 0 1 = PhiR(1/2) while "
+               "CFBlackScholes.call(0, 1) = spot (numpy log(inf)); K < 0 is nan in the code (audit5b B13); the harness uses strikes > 0 only",
+               "scipy.stats.norm.cdf is taken to be PhiR within 1e-11 by the regular-branch cases; at the threshold cases (|d| ~ 1e7) only "
+               "norm.cdf = 0 or 1 within 1e-14 is used",
+               "parameters outside the models' domains are not in the property's box; VG nu < 0 is nevertheless recorded (F-C18-6) because the "
+               "code accepts it silently and quotes arbitrageable prices"]
 THEOREM_NOTES = {
     "C18_parity_forward_leg": "the forward leg (df*(S*mean - K) = S e^{-dT} - K e^{-rT}) has content (C18_forward_martingale); the option legs do not: "
                         "COS computes the call FROM the put by parity and FFT the put FROM the call, so the put's (call's) pricing sum enters "
@@ -116,10 +135,17 @@ THEOREM_NOTES = {
     "C18_bs_strike_derivative": "regular branch; Coquelicot auto_derive through the Gaussian integral (PhiR' = phi by is_derive_RInt); the identity "
                                 "F phi(d1) = K phi(d2) is algebra on exp/ln; ties the GENERATED bs_digital to the strike derivative of the GENERATED call",
     "C18_bs_at_gaussian": "FULL (not partial) for the closed form at PhiR: both intrinsic legs, upper bounds, monotone and convex (three-point slope "
-                          "form) in K, both branches. It is a theorem about the generated formula evaluated at the Gaussian integral PhiR; that "
+                          "form) in K, both branches of the GENERATED term (tied to CFBlackScholes.call/put by Coq cases in both branches since "
+                          "wave 8b: case_b*, case_bd*, case_ba*; before that the degenerate branch of call/put had no Coq case -- audit5b A5). "
+                          "0 < K is needed (false in the model at K = 0, where model and code differ). It is a theorem about the generated formula evaluated at the Gaussian integral PhiR; that "
                           "scipy.stats.norm.cdf is PhiR (1e-11) and float rounding are outside it (Interval cases / differential tests)",
     "C18_bs_sigma_monotone": "vega >= 0 by the mean value theorem on the regular branch, and across the code's threshold sigma < 1e-8 by the binding "
-                             "lower bound (intrinsic <= regular value)",
+                             "lower bound (intrinsic <= regular value); 'across the threshold' is about the generated test sigma < 1/10^8, tied on "
+                             "both sides by case_bd* / case_ba* (sigma = prev(1e-8), 1e-8, next(1e-8), 2e-8) and monitored on floats by _bs_shape_checks",
+    "C18_PhiR_enclosure": "corollary of C18_PhiR_tail + symmetry + range (thin); exists because the threshold cases need a two-sided enclosure at |x| ~ 1e7",
+    "C18_vg_nu_unguarded_refuted": "finding F-C18-6 on the GENERATED VGParameters.__init__: C = 1/nu < 0 for every nu < 0 and a negative radicand of "
+                                   "lambda_+ at the witness; the statement is about the parameter map only (thin by nature: the defect is a missing "
+                                   "guard) -- that COS then quotes call(100,1) = -1.69 is observed on the implementation, not proved",
     "C18_PhiR_monotone": "integrand positive + Chasles; with C18_PhiR_symmetric and the range clause it gives Phi_like PhiR",
 }
 
@@ -136,11 +162,15 @@ CASE_HEADER = """From Coq Require Import Reals Lra.
 From Coquelicot Require Import Coquelicot.
 From Interval Require Import Tactic.
 From Coq Require Import List.
-From RV Require Import Base.RB Gen.GenC18Cos Model.Cos Model.CosSum Model.CosExt Proofs.C18_Cos Proofs.C18_Ext Proofs.C18_Bs.
+From RV Require Import Base.RB Gen.GenC18Cos Model.Cos Model.CosSum Model.CosExt Proofs.C18_Cos Proofs.C18_Ext Proofs.C18_Bs Proofs.C18_Gauss Proofs.C18_Shape Proofs.C18_Findings.
 Import ListNotations.
 Open Scope R_scope.
 Ltac nondeg := unfold bs_degenerate, Rltb;
   repeat match goal with |- context [Rlt_dec ?a ?b] => destruct (Rlt_dec a b); [exfalso; lra|] end; reflexivity.
+Ltac degen := unfold bs_degenerate, Rltb; repeat match goal with |- context [Rlt_dec ?a ?b] => destruct (Rlt_dec a b) end;
+  simpl; first [reflexivity | exfalso; lra].
+Ltac rmax_split := match goal with |- context [Rmax 0 ?e] =>
+  first [ assert (HS : 0 <= e) by interval; rewrite (Rmax_right 0 e HS) | assert (HS : e <= 0) by interval; rewrite (Rmax_left 0 e HS)\n        | unfold Rmax; destruct (Rle_dec 0 e) ] end.
 Ltac psi_norm := first [ rewrite cos_psi_zero | rewrite cos_psi_nonzero by lra ]; unfold psi_prim.
 """
 
@@ -269,6 +299,78 @@ def _bs_cases(res, rng, n_cases):
                 f"  set (p1 := PhiR {a1}) in *. set (p2 := PhiR {a2}) in *.\n  interval with (i_prec 60).\nQed.")
         res.count(("bs", r, d, S, sigma, T, K, flag), kind="interval case black-scholes")
         lemmas.append((f"bs flag={flag} S={S} K={K} T={T} sigma={sigma} r={r} d={d}", text))
+    return lemmas
+
+
+E14 = "1 / 100000000000000"
+
+
+def _bs_threshold_cases(res, rng, n_random):
+    """audit5b A5: CFBlackScholes.call / put against the GENERATED bs_call_put PhiR in the DEGENERATE branch and on both sides of the code's
+    threshold.  (bd) degenerate: sigma in {0, 0.99e-8, the float just below 1e-8}, maturity < 1e-8, spot < 1e-8 -- `degen` proves
+    bs_degenerate = true from the generated disjunction, bs_degenerate_intrinsic rewrites the generated term, Interval evaluates
+    df * max(0, +-(F - K)) (1e-12 * max(S, K));  (ba) regular side, sigma in {1e-8 (the float is 2e-25 above the rational 1/10^8 of the
+    generated test), nextafter(1e-8), 2e-8}: `nondeg` proves bs_degenerate = false, |d1|, |d2| ~ 1e7 are enclosed by C18_PhiR_enclosure
+    (PhiR within 1e-14 of 0 or 1), at the money (r = d, K = S: d1 = sd/2 ~ 5e-9) by the `integral` tactic as in _bs_cases with the tighter
+    tolerance 5e-11 * S (the value there is ~4e-7 * S/100: a branch mix-up is visible)."""
+    import numpy as np
+    from scipy.stats import norm
+    from rpylib.model import utils as U_
+    from rpylib.model.levymodel.levymodel import ModelType
+    from rpylib.numerical.closedform.cfblackscholes import CFBlackScholes
+    below, above = float(np.nextafter(1e-8, 0.0)), float(np.nextafter(1e-8, 1.0))
+    # (r, d, S, sigma, T, K-factor)
+    fixed = [(0.02, 0.01, 100.0, 0.0, 1.0, 0.8), (0.02, 0.01, 100.0, 0.99e-8, 1.0, 0.8), (0.02, 0.01, 100.0, below, 2.0, 1.25),
+             (0.05, 0.005, 50.0, below, 0.25, 0.8), (0.02, 0.01, 100.0, 0.2, 1e-9, 1.25), (0.02, 0.01, 1e-9, 0.2, 1.0, 0.8),
+             (0.01, 0.01, 100.0, 0.99e-8, 1.0, 1.0),
+             (0.02, 0.01, 100.0, 1e-8, 1.0, 0.8), (0.02, 0.01, 100.0, above, 2.0, 1.25), (0.05, 0.005, 50.0, 2e-8, 0.25, 0.8),
+             (0.01, 0.01, 100.0, 1e-8, 1.0, 1.0), (0.01, 0.01, 100.0, 2e-8, 1.0, 1.0)]
+    rand = [(rng.choice([0.01, 0.02, 0.05]), rng.choice([0.005, 0.01]), rng.choice([50.0, 100.0]),
+             rng.choice([0.0, 0.5e-8, 0.99e-8, below, 1e-8, above, 1.5e-8, 2e-8, 1e-7]), rng.choice([0.25, 1.0, 2.0]), rng.choice([0.8, 1.25]))
+            for _ in range(n_random)]
+    lemmas = []
+    for i, (r, d, S, sigma, T, kf) in enumerate(fixed + rand):
+        K = S * kf
+        cf = CFBlackScholes(U_.helper_model(ModelType.BLACKSCHOLES)(spot=S, r=r, d=d, sigma=sigma))
+        A = [rlit(x) for x in (r, d, S, sigma)]
+        degenerate = sigma < 1e-8 or S < 1e-8 or T < 1e-8          # the code's own test, on floats (the Coq side proves ITS test on the rationals)
+        side = "degenerate" if degenerate else "regular side of the threshold"
+        res.bump("bs_threshold", f"sigma={sigma!r} T={T:g} S={S:g}: {side}")
+        text = (f"Lemma bd_{i} : bs_degenerate {A[2]} {A[3]} {rlit(T)} = {'true' if degenerate else 'false'}.\n"
+                f"Proof. {'degen' if degenerate else 'nondeg'}. Qed.\n")
+        for flag in (1, -1):
+            v = float(cf.call(K, T) if flag == 1 else cf.put(K, T))
+            if not math.isfinite(v):
+                res.violation("closed-form price is not finite at the degenerate threshold", dict(kind="bs_threshold", spot=S, r=r, d=d, sigma=sigma, maturity=T, strike=K, flag=flag))
+                continue
+            args = " ".join(A + [rlit(flag), rlit(K), rlit(T)])
+            tag = "c" if flag == 1 else "p"
+            res.count(("bs-threshold", r, d, S, sigma, T, K, flag), kind=f"interval case black-scholes {side}")
+            if degenerate:
+                text += (f"Lemma case_bd{i}{tag} : Rabs (bs_call_put PhiR {args} - {rlit(v)}) <= {rlit(1e-12 * max(S, K))}.\n"
+                         f"Proof. rewrite (bs_degenerate_intrinsic PhiR _ _ _ _ _ _ _ bd_{i}). rmax_split; interval with (i_prec 60). Qed.\n")
+                continue
+            d1e = (f"(ln ({A[2]} * exp (({A[0]} - {A[1]}) * {rlit(T)}) / {rlit(K)}) / ({A[3]} * sqrt {rlit(T)}) + 1 / 2 * ({A[3]} * sqrt {rlit(T)}))")
+            a1 = f"({d1e} * {rlit(flag)})"
+            a2 = f"(({d1e} - {A[3]} * sqrt {rlit(T)}) * {rlit(flag)})"
+            fwd, sd = S * math.exp((r - d) * T), sigma * math.sqrt(T)
+            x1 = (math.log(fwd / K) / sd + 0.5 * sd) * flag
+            xs = (x1, x1 - sd * flag)
+            far = all(abs(x) >= 8 for x in xs)
+            text += (f"Lemma case_ba{i}{tag} : Rabs (bs_call_put PhiR {args} - {rlit(v)}) <= {rlit((1e-9 if far else 5e-11) * S)}.\nProof.\n"
+                     f"  rewrite (bs_nondegenerate PhiR _ _ _ _ _ _ _ bd_{i}).\n")
+            for n, (a, x) in enumerate(zip((a1, a2), xs), 1):
+                if abs(x) >= 8 and x > 0:
+                    text += (f"  assert (X{n} : 0 <= {a}) by interval.\n  assert (E{n} : exp (- ({a} * {a}) / 2) / 2 <= {E14}) by interval.\n"
+                             f"  assert (H{n} : 1 - {E14} <= PhiR {a} <= 1) by (pose proof (PhiR_enclosure_pos _ X{n}); lra).\n")
+                elif abs(x) >= 8:
+                    text += (f"  assert (X{n} : {a} <= 0) by interval.\n  assert (E{n} : exp (- ({a} * {a}) / 2) / 2 <= {E14}) by interval.\n"
+                             f"  assert (H{n} : 0 <= PhiR {a} <= {E14}) by (pose proof (PhiR_enclosure_neg _ X{n}); lra).\n")
+                else:
+                    pp = float(norm.cdf(x))
+                    text += (f"  assert (H{n} : {rlit(Fraction(pp) - E11)} <= PhiR {a} <= {rlit(Fraction(pp) + E11)}) by (unfold PhiR; integral with (i_prec 60, i_relwidth 45)).\n")
+            text += f"  set (p1 := PhiR {a1}) in *. set (p2 := PhiR {a2}) in *.\n  interval with (i_prec 60).\nQed.\n"
+        lemmas.append((f"bs {side} S={S} K={K} T={T} sigma={sigma!r} r={r} d={d}", text))
     return lemmas
 
 
@@ -771,7 +873,8 @@ def matches_known(v, known):
         if known["id"] == "F-C18-4":
             # FFT: fixed grid eta does not resolve the damped transform; only COS/FFT(/closed form) disagreements in that regime
             q = r.get("fft_resolution_q")
-            return (what in ("COS and FFT call prices disagree", "FFT and the Black-Scholes closed form disagree")
+            return (what in ("COS and FFT call prices disagree", "FFT and the Black-Scholes closed form disagree",
+                             "FFT prices are not homogeneous of degree one in (spot, strike)")
                     and isinstance(q, float) and q == q and r.get("tail_rate", 0) > 2.5
                     and (q < FFT_Q or r["tail_rate"] < 2.5 + FFT_MARGIN))
         if known["id"] == "F-C18-5":
@@ -783,6 +886,31 @@ def matches_known(v, known):
             frac = x / r["b"] if x > 0 else x / r["a"]
             lo, hi = r["log_moneyness"]
             return frac > 1 / 3 - 1e-9 and min(abs(lo), abs(hi)) >= min(abs(r["a"]), abs(r["b"])) / 3 - 1e-9
+        if known["id"] == "F-C18-6":
+            # VG nu < 0 accepted: only that what, only nu < 0, and the constructor + COS pricer are RE-RUN on the replay's own parameters:
+            # the model must (still) be accepted and the recorded quote reproduced (both nan, or equal to 1e-9 relative)
+            p = r.get("params", {})
+            if what != VG_NU_WHAT or r.get("kind") != "vg_nu" or r.get("model") != "VG" or not (isinstance(p.get("nu"), float) and p["nu"] < 0):
+                return False
+            ok, call, put, exc = _vg_nu_probe(p["sigma"], p["nu"], p["theta"], r["spot"], r["r"], r["d"], r["maturity"], r["strike"])
+            same = lambda x, y: (x is None and y is None) or (x is not None and y is not None and  # noqa
+                                 ((x != x and y != y) or abs(x - y) <= 1e-9 * max(1.0, abs(x))))
+            return bool(ok and same(call, r.get("call")) and same(put, r.get("put")))
+        if known["id"] == "F-C18-7":
+            # FFT threshold in currency units: only the decision-depends-on-the-unit failure of a Black-Scholes law, RE-RUN at both scales
+            # (the decisions must still differ and be the recorded ones), and the two closed-form moments must sit on opposite sides of the
+            # code's absolute threshold -- a refusal with any other cause does not match
+            if (what != "FFT pricer's accept/refuse decision depends on the currency unit of the spot (same law: refused at one scale, quoted at the other)"
+                    or r.get("kind") != "fft_scale" or r.get("model") != "BLACKSCHOLES"):
+                return False
+            sg, T, sp = r["params"]["sigma"], r["maturity"], r["spot"]
+            log_unit = 2.5 * (r["r"] - r["d"]) * T + 1.875 * sg * sg * T
+            log_abs = 2.5 * math.log(sp) + log_unit
+            _, pb, eb, pu, eu = _fft_scale_probe(sp, r["r"], r["d"], sg, T)
+            dec = ("ValueError" if eb else "price", "ValueError" if eu else "price")
+            return bool(dec == (r.get("decision_at_spot"), r.get("decision_at_unit_spot")) and dec[0] != dec[1]
+                        and (log_abs > math.log(1e10)) != (log_unit > math.log(1e10))
+                        and (dec[0] == "ValueError") == (log_abs > math.log(1e10)))
     except Exception:  # noqa
         return False
     return False
@@ -906,56 +1034,82 @@ def _fft_guard_cases(res, viol):
                  cos=float(COSPricer(model).call(np.array([100.0]), T)[0]))
 
 
+def _fft_decision(model, ks, T):
+    """(prices | None, error text | None) of the public FFTPricer.call on a fresh pricer"""
+    from rpylib.numerical.fft import FFTPricer
+    try:
+        return FFTPricer(model).call(ks, T), None
+    except ValueError as e:
+        return None, str(e)
+
+
+def _fft_scale_probe(spot, r, d, sigma, T):
+    """the same Black-Scholes law quoted in two currency units: (decision at `spot`, decision at spot 1, prices / spot, prices at spot 1)"""
+    import numpy as np
+    from rpylib.model import utils as U_
+    from rpylib.model.levymodel.levymodel import ModelType
+    kf = np.array([0.8, 1.0, 1.25])
+    big = U_.helper_model(ModelType.BLACKSCHOLES)(spot=spot, r=r, d=d, sigma=sigma)
+    unit = U_.helper_model(ModelType.BLACKSCHOLES)(spot=1.0, r=r, d=d, sigma=sigma)
+    (pb, eb), (pu, eu) = _fft_decision(big, spot * kf, T), _fft_decision(unit, kf, T)
+    return big, pb, eb, pu, eu
+
+
 def _fft_branch_cases(res, rng, viol, n_random):
-    """The remaining branches of FFTPricer._sufficient_condition, driven through the public FFTPricer.call with an oracle that is
-    independent of the pricer:  (a) `moments[-1].real > 1e10` on Black-Scholes models, where E[S_T^2.5] = S^2.5 exp(2.5 (r-d) T +
-    1.875 sigma^2 T) is known in closed form: the pricer must raise ValueError iff that number exceeds 1e10 (both sides of the threshold,
-    large spots included: the threshold is absolute in currency units, so EVERY model with spot >= 10^4 and r >= d is refused), and when it
-    does not raise its price is compared with CFBlackScholes (resolved regime hard, otherwise the recorded finding F-C18-4);
+    """The remaining branches of FFTPricer._sufficient_condition, driven through the public FFTPricer.call.  Wave 8b (audit5b A5 / D7): the
+    oracle no longer copies the code's threshold.  (a) `moments[-1].real > 1e10` on Black-Scholes models: SCALE-FREE oracle -- prices are
+    homogeneous of degree one in (spot, strike), so the SAME law quoted at `spot` and at spot 1 must get the same accept/refuse decision and,
+    when quoted, call(spot; k spot) / spot = call(1; k) (TOL); inside the documented box the pricer must quote at unit spot; a returned price
+    is compared with CFBlackScholes (resolved regime hard, otherwise the recorded finding F-C18-4).  A decision that depends on the currency
+    unit is the recorded finding F-C18-7 (the threshold is absolute: spot >= 1e4 is refused for every model), matched by re-running both
+    pricers.  E[S_T^2.5] = spot^2.5 exp(2.5 (r-d) T + 1.875 sigma^2 T) is recorded in the replay as information only.
     (b) `except ZeroDivisionError`: HEM with eta1 exactly on the guard's grid u in {0, .25, ..., 2.5} -- the characteristic function,
     evaluated through the public model.log_characteristic_function at x = -1j*u, divides by eta1 - u = 0 (Python complex arithmetic);
-    E[S^2.5] is infinite there (eta1 <= 2.5), so the pricer must raise ValueError and must not leak the ZeroDivisionError."""
+    E[S^2.5] is infinite there (eta1 <= 2.5), so the pricer must raise ValueError and must not leak the ZeroDivisionError; that the
+    characteristic function DOES raise there is required (otherwise these cases no longer reach the branch: broken obligation)."""
     import numpy as np
     from rpylib.model import utils as U_
     from rpylib.model.levymodel.levymodel import ModelType
     from rpylib.numerical.fft import FFTPricer
     from rpylib.numerical.closedform.cfblackscholes import CFBlackScholes
     fixed = [(100.0, 0.02, 0.0, 1.5, 3.0), (20000.0, 0.02, 0.0, 0.2, 1.0), (10000.0, 0.0, 0.0, 0.2, 1.0), (5000.0, 0.02, 0.0, 0.2, 1.0),
-             (100.0, 0.05, 0.0, 0.9, 1.0), (5000.0, 0.0, 0.01, 0.5, 3.0)]
+             (100.0, 0.05, 0.0, 0.9, 1.0), (5000.0, 0.0, 0.01, 0.5, 3.0), (9000.0, 0.0, 0.0, 0.2, 1.0), (1e6, 0.0, 0.0, 0.2, 1.0)]
     rand = [(rng.choice([100.0, 1000.0, 5000.0, 20000.0]), rng.choice([0.0, 0.02, 0.05]), rng.choice([0.0, 0.01]), rng.uniform(0.1, 1.6),
              rng.choice([0.5, 1.0, 2.0, 3.0])) for _ in range(n_random)]
+    kf = np.array([0.8, 1.0, 1.25])
+    lo_s, hi_s = BOX["BLACKSCHOLES"]["sigma"]
     for spot, r, d, sigma, T in fixed + rand:
-        log_mom = 2.5 * math.log(spot) + 2.5 * (r - d) * T + 1.875 * sigma * sigma * T      # closed form, independent of the pricer
-        if abs(log_mom - math.log(1e10)) < 1e-6:
-            continue
-        large = log_mom > math.log(1e10)
-        model = U_.helper_model(ModelType.BLACKSCHOLES)(spot=spot, r=r, d=d, sigma=sigma)
-        fft = FFTPricer(model)
-        ks = spot * np.array([0.8, 1.0, 1.25])
-        rep = dict(kind="fft_branch", model="BLACKSCHOLES", spot=spot, r=r, d=d, params=dict(sigma=sigma), maturity=T, moment_2p5=math.exp(log_mom))
-        res.count(("fft-branch", spot, r, d, sigma, T), kind="FFT sufficient condition: moment threshold 1e10")
-        try:
-            got, out = fft.call(ks, T), None
-        except ValueError as e:
-            got, out = None, str(e)
-        res.bump("fft_branch", f"BS E[S^2.5] {'>' if large else '<='} 1e10 (spot {spot:g}) -> {'ValueError' if out else 'price'}")
-        if large and out is None:
-            viol("FFT pricer returns prices although E[S^(1+alpha)] exceeds its own threshold 1e10 (its sufficient condition does not fire)",
-                 fft=[float(v) for v in got], **rep)
-        elif not large and out is not None:
-            viol("FFT pricer refuses a Black-Scholes model whose E[S^(1+alpha)] is finite and below its own threshold 1e10", error=out, **rep)
-        elif out is None:
-            with np.errstate(all="ignore"):
-                psi = fft._psi(t=T, v=np.array([0.0, fft.eta]))
-            q = float(abs(psi[1]) / abs(psi[0])) if np.all(np.isfinite(psi)) and abs(psi[0]) > 0 else float("nan")
+        log_unit = 2.5 * (r - d) * T + 1.875 * sigma * sigma * T          # log E[(S_T / S_0)^2.5], closed form: information only
+        model, got, out, got1, out1 = _fft_scale_probe(spot, r, d, sigma, T)
+        ks = spot * kf
+        rep = dict(kind="fft_scale", model="BLACKSCHOLES", spot=spot, r=r, d=d, params=dict(sigma=sigma), maturity=T,
+                   moment_2p5=math.exp(2.5 * math.log(spot) + log_unit), unit_moment_2p5=math.exp(log_unit),
+                   decision_at_spot="ValueError" if out else "price", decision_at_unit_spot="ValueError" if out1 else "price")
+        res.count(("fft-branch", spot, r, d, sigma, T), kind="FFT sufficient condition: decision and price homogeneous in the currency unit")
+        res.bump("fft_branch", f"BS spot {spot:g}: {'refused' if out else 'price'} / the same law at spot 1: {'refused' if out1 else 'price'}")
+        if lo_s <= sigma <= hi_s and T <= max(MATURITIES) and out1 is not None:
+            viol("FFT pricer refuses a Black-Scholes model of the documented box at unit spot", error=out1, **rep)
+        if (out is None) != (out1 is None):
+            viol("FFT pricer's accept/refuse decision depends on the currency unit of the spot (same law: refused at one scale, quoted at the other)",
+                 error=out or out1, finding="F-C18-7", **rep)
+        with np.errstate(all="ignore"):
+            psi = FFTPricer(model)._psi(t=T, v=np.array([0.0, 0.25]))
+        q = float(abs(psi[1]) / abs(psi[0])) if np.all(np.isfinite(psi)) and abs(psi[0]) > 0 else float("nan")
+        tag = {} if q >= FFT_Q else dict(finding="F-C18-4")
+        if out is None and out1 is None:
+            dv = np.abs(got / spot - got1)
+            if np.any(dv > TOL):
+                i = int(np.argmax(dv))
+                viol("FFT prices are not homogeneous of degree one in (spot, strike)", kind2="homogeneity", strike=float(ks[i]), fft=float(got[i]),
+                     fft_unit_spot=float(got1[i]), tol=TOL, fft_resolution_q=q, tail_rate=float("inf"), **rep, **tag)
+        if out is None:
             cf = CFBlackScholes(model)
             ref = np.array([float(cf.call(float(k), T)) for k in ks])
             dv = np.abs(got - ref)
             if np.any(dv > TOL * spot):
                 i = int(np.argmax(dv))
-                tag = {} if q >= FFT_Q else dict(finding="F-C18-4")
                 viol("FFT and the Black-Scholes closed form disagree", strike=float(ks[i]), fft=float(got[i]), closed_form=float(ref[i]),
-                     tol=TOL * spot, fft_resolution_q=q, tail_rate=float("inf"), **rep, **tag)
+                     tol=TOL * spot, fft_resolution_q=q, tail_rate=float("inf"), **dict(rep, kind="fft_branch"), **tag)
     us = [0.25 * i for i in range(11)]
     for eta1 in (1.25, 1.5, 1.75, 2.0, 2.25, 2.5):
         for T in (0.25, 1.0):
@@ -977,11 +1131,61 @@ def _fft_branch_cases(res, rng, viol, n_random):
             except ZeroDivisionError:
                 v, out = None, "ZeroDivisionError"
             res.bump("fft_branch", f"HEM pole eta1={eta1} on the guard's grid: cf raises ZeroDivisionError={zde} -> {out}")
+            if not zde:
+                res.broke("correspondence fft_branch", f"HEM eta1={eta1} T={T}: model.log_characteristic_function(x=-1j*u) no longer raises ZeroDivisionError on "
+                          "the guard's grid, so the `except ZeroDivisionError` branch of FFTPricer._sufficient_condition is not reached by these cases")
             if out == "price":
                 viol("FFT pricer returns prices although E[S^(1+alpha)] is infinite (its sufficient condition does not fire)",
                      fft=float(np.squeeze(v)), **rep)
             elif out == "ZeroDivisionError":
                 viol("FFT pricer leaks ZeroDivisionError from the characteristic function at a pole instead of refusing the model (ValueError)", **rep)
+
+
+VG_NU_WHAT = "variance-gamma model with nu < 0 (negative Levy density C = 1/nu) is accepted and quoted by the COS pricer"
+
+
+def _vg_nu_probe(sigma, nu, theta, spot, r, d, T, K):
+    """(accepted?, call, put, exception name) of the public constructors + COSPricer on the real code"""
+    import numpy as np
+    from rpylib.model import utils as U_
+    from rpylib.model.levymodel.levymodel import ModelType
+    from rpylib.numerical.cosmethod import COSPricer
+    with warnings.catch_warnings(), np.errstate(all="ignore"):
+        warnings.simplefilter("ignore")
+        try:
+            model = U_.helper_model(ModelType.VG)(spot=spot, r=r, d=d, sigma=sigma, nu=nu, theta=theta)
+        except Exception as e:  # noqa
+            return False, None, None, type(e).__name__
+        try:
+            cos = COSPricer(model)
+            return True, float(cos.call(np.array([K]), T)[0]), float(cos.put(np.array([K]), T)[0]), None
+        except Exception as e:  # noqa
+            return True, None, None, type(e).__name__
+
+
+def _vg_nu_cases(res, rng, viol, n_random):
+    """audit5b D8 -> finding F-C18-6.  A variance-gamma law needs nu > 0 (variance rate of the gamma clock; the Levy density is
+    C e^{-lambda|x|}/|x| with C = 1/nu).  Oracle on the implementation, independent of the pricers' formulas: for nu <= 0 the public
+    constructor must refuse the parameters (any exception).  If it accepts, the COS quotes at the money are recorded with the no-arbitrage
+    bounds [df (F-K)^+, df F] they should respect.  nu > 0 controls: the model is accepted and the quote lies inside the bounds."""
+    fixed = [(0.1, -1.0, 0.1), (0.1, -0.5, 0.1), (0.1, -0.06, 0.1), (0.2, -0.25, -0.1), (0.1, 0.0, 0.1), (0.1, 0.2, 0.1), (0.2, 0.1, -0.1)]
+    rand = [(round(rng.uniform(0.08, 0.4), 3), -round(rng.uniform(0.03, 2.0), 3), round(rng.uniform(-0.3, 0.2), 3)) for _ in range(n_random)]
+    spot, r, d, T, K = 100.0, 0.02, 0.0, 1.0, 100.0
+    df, fwd = math.exp(-r * T), spot * math.exp((r - d) * T)
+    lo, hi = df * max(fwd - K, 0.0), df * fwd
+    for sigma, nu, theta in fixed + rand:
+        ok, call, put, exc = _vg_nu_probe(sigma, nu, theta, spot, r, d, T, K)
+        res.count(("vg-nu", sigma, nu, theta), kind="VG parameter nu: sign guard")
+        inside = call is not None and math.isfinite(call) and lo - TOL * spot <= call <= hi + TOL * spot
+        res.bump("vg_nu", f"nu {'> 0' if nu > 0 else ('= 0' if nu == 0 else '< 0')}: " + (f"refused ({exc})" if not ok else
+                 ("quoted inside the bounds" if inside else "QUOTED OUTSIDE the no-arbitrage bounds (or nan)")))
+        rep = dict(kind="vg_nu", model="VG", spot=spot, r=r, d=d, maturity=T, strike=K, params=dict(sigma=sigma, nu=nu, theta=theta),
+                   call=call, put=put, lower=lo, upper=hi, levy_density_constant=(1 / nu if nu else None), exception=exc)
+        if nu > 0:
+            if not ok or not inside:
+                viol("variance-gamma model with nu > 0: refused, or COS call outside [intrinsic, discounted forward]", **rep)
+        elif ok:
+            viol(VG_NU_WHAT, finding="F-C18-6", **rep)
 
 
 def _bs_shape_checks(res, rng, viol, n_cases):
@@ -1092,6 +1296,7 @@ def correspond(res):
         coef = _coefficient_cases(res, rng, 48 if quick else 400)
         simp = _simpson_cases(res, rng)
         bs = _bs_cases(res, rng, 6 if quick else 40)
+        thr = _bs_threshold_cases(res, random.Random(res.seed + 81), 4 if quick else 40)
         sums = _sum_cases(res, rng, 4 if quick else 20) + _density_cases(res, rng, 5 if quick else 20)
         ext = _ext_cases(res, random.Random(res.seed + 18), 8 if quick else 40, viol)
         _degenerate_bs(res, viol)
@@ -1099,10 +1304,12 @@ def correspond(res):
         _fft_guard_cases(res, viol)
         _fft_branch_cases(res, random.Random(res.seed + 36), viol, 10 if quick else 60)
         _bs_shape_checks(res, random.Random(res.seed + 37), viol, 60 if quick else 600)
+        _vg_nu_cases(res, random.Random(res.seed + 82), viol, 6 if quick else 60)
         _rate_sweep(res, rng, viol)
         _differential(res, rng, 14 if quick else 150, 6 if quick else 60, viol)
     _run_lemmas(res, "cases_coefficients", coef + simp + guard)
     _run_lemmas(res, "cases_bs", bs)
+    _run_lemmas(res, "cases_bs_threshold", thr)
     _run_lemmas(res, "cases_sum", sums)
     _run_lemmas(res, "cases_ext", ext)
 
@@ -1166,6 +1373,23 @@ def replay(path):
             print(quote, "at sigma 0.99e-8:", a, " at sigma", data["sigma"], ":", b)
             bad |= a > b + 1e-12 * max(data["spot"], K)
         return 1 if bad else 0
+    if data.get("kind") == "vg_nu":
+        p = data["params"]
+        ok, call, put, exc = _vg_nu_probe(p["sigma"], p["nu"], p["theta"], data["spot"], data["r"], data["d"], data["maturity"], data["strike"])
+        print(f"VG sigma={p['sigma']} nu={p['nu']} theta={p['theta']}: " + (f"refused ({exc})" if not ok else f"ACCEPTED; COS call = {call}, put = {put}; "
+              f"no-arbitrage bounds for the call [{data['lower']}, {data['upper']}] ({exc or 'no exception'})"))
+        if p["nu"] > 0:
+            return 0 if ok and call is not None and data["lower"] - TOL * data["spot"] <= call <= data["upper"] + TOL * data["spot"] else 1
+        return 1 if ok else 0
+    if data.get("kind") == "fft_scale":
+        _, pb, eb, pu, eu = _fft_scale_probe(data["spot"], data["r"], data["d"], data["params"]["sigma"], data["maturity"])
+        print(f"same Black-Scholes law: at spot {data['spot']:g} ->", "ValueError: " + eb if eb else [float(v) / data["spot"] for v in pb], "(price / spot)")
+        print("                          at spot 1 ->", "ValueError: " + eu if eu else [float(v) for v in pu])
+        if (eb is None) != (eu is None):
+            return 1
+        if eb is None and max(abs(float(a) / data["spot"] - float(b)) for a, b in zip(pb, pu)) > TOL:
+            return 1
+        return 0
     if data.get("kind") == "fft_branch":
         from rpylib.model import utils as U_
         from rpylib.model.levymodel.levymodel import ModelType
@@ -1238,9 +1462,13 @@ LEVEL_TEXT = ("Proof, PARTIAL: Coq theorems (over R with Coquelicot; standard re
               "(12) AT the Gaussian integral PhiR, with no abstract Phi left: 1 - e^{-x^2/2}/2 <= PhiR x (so PhiR -> 1), the sigma -> 0+ limit for every "
               "strike incl. K = F, F phi(d1) = K phi(d2), dCall/dK = -digital (generated bs_digital), and the FULL static shape of the generated "
               "closed form in both branches: df (F-K)^+ <= call <= df F, df (K-F)^+ <= put <= df K, call non-increasing / put non-decreasing / both "
-              "convex in the strike, both non-decreasing in sigma across the 1e-8 threshold. "
-              "Model and implementation are tied by ~100 Interval/integral case lemmas per run (incl. the window, the public entry points "
-              "put / call / digital / cdf of few-term pricers, butterflies, the closed-form digital in both branches). NOT proved and reported only as differential "
+              "convex in the strike, both non-decreasing in sigma across the 1e-8 threshold (call / put tied to CFBlackScholes by Coq cases in the regular branch, "
+              "in the degenerate branch and at sigma = 1e-8 / its float neighbours / 2e-8 since wave 8b; 0 < K needed); "
+              "(13) findings recorded as known: F-C18-6 VG nu < 0 accepted (C = 1/nu < 0 proved on the generated constructor, COS call(100,1) = -1.69 observed), "
+              "F-C18-7 FFTPricer's moment threshold 1e10 is in currency units (decision differs between spot S and spot 1 for the same law; implementation "
+              "oracle only, _sufficient_condition is not modelled). "
+              "Model and implementation are tied by ~130 Interval/integral case lemmas per run (incl. the window, the public entry points "
+              "put / call / digital / cdf of few-term pricers, butterflies, the closed-form call / put / digital in both branches). NOT proved and reported only as differential "
               "TESTS over a documented box: every COS / FFT price bound, monotonicity/convexity in the strike (proved for the closed form at PhiR only), COS digital bounds/monotonicity, density "
               "non-negative and integrating to one, truncation error, COS/FFT/closed-form and VG/CGMY price agreement.")
 LEVEL_NOTE = ("Trusted: Coq kernel, Coquelicot, Interval (reflexive interval arithmetic inside vm_compute); stdlib real/classical axioms; "
